@@ -69,6 +69,27 @@ pub fn tamperings(r: &mut Rng, h: &Honest, other: Option<&Honest>, positions: us
             out.push(mk(&format!("edit-{}-{}: position {}", ["subst", "delete", "insert"][kind], part, i), h, with_jwt(h, t), honest_resolver.clone(), kb && r.chance(1, 2)));
         }
     }
+    // a character replaced by its counterpart in the OTHER base64 alphabet ('-' by '+', '_' by '/', and back), by '=' and by its
+    // other letter case: at every such position (quick: a sample)
+    {
+        let pos: Vec<usize> = jwt.char_indices().filter(|(_, c)| matches!(c, '-' | '_')).map(|(i, _)| i).collect();
+        let sample: Vec<usize> = if all_positions || pos.len() <= 12 { pos.clone() } else { (0..12).map(|_| *r.pick(&pos)).collect() };
+        for i in sample {
+            let c = jwt.as_bytes()[i] as char;
+            for rep in [if c == '-' { '+' } else { '/' }, '=', if c == '-' { '_' } else { '-' }] {
+                let t = format!("{}{}{}", &jwt[..i], rep, &jwt[i + 1..]);
+                let part = match jwt[..i].matches('.').count() { 0 => "header", 1 => "payload", _ => "signature" };
+                out.push(mk(&format!("edit-other-alphabet-{}: position {} {:?}->{:?}", part, i, c, rep), h, with_jwt(h, t), honest_resolver.clone(), kb && r.chance(1, 2)));
+            }
+        }
+        let letters: Vec<usize> = jwt.char_indices().filter(|(_, c)| c.is_ascii_alphabetic()).map(|(i, _)| i).collect();
+        for _ in 0..(if all_positions { 30 } else { 5 }) {
+            let i = *r.pick(&letters);
+            let c = jwt.as_bytes()[i] as char;
+            let rep = if c.is_ascii_lowercase() { c.to_ascii_uppercase() } else { c.to_ascii_lowercase() };
+            out.push(mk(&format!("edit-other-case: position {}", i), h, with_jwt(h, format!("{}{}{}", &jwt[..i], rep, &jwt[i + 1..])), honest_resolver.clone(), kb && r.chance(1, 2)));
+        }
+    }
     // multi-byte characters substituted / inserted: at every one of the last 16 positions (code that slices the token by byte
     // offsets from its end) and at a sample of other positions
     {
@@ -148,6 +169,17 @@ pub fn tamperings(r: &mut Rng, h: &Honest, other: Option<&Honest>, positions: us
                     a.args.fmt = Fmt::Json;
                     out.push(a);
                 }
+            }
+            // tokens signed by hand whose protected header carries the parameters that say where a key could be fetched from: the
+            // resolver is asked with exactly that header (rule above), and the key it returns decides
+            for (pname, hdr) in [("jku", json!({"alg": alg, "jku": "https://issuer.example/keys-2"})), ("x5u", json!({"alg": alg, "x5u": "https://issuer.example/cert"})), ("x5t", json!({"alg": alg, "x5t": "dGh1bWI", "x5t#S256": "dGh1bWIy"})),
+                                 ("cty-typ", json!({"alg": alg, "cty": "json", "typ": "vc+sd-jwt"})), ("all", json!({"alg": alg, "kid": "k-issuer", "jku": "https://a.example/k", "x5u": "https://a.example/c", "typ": "JWT", "cty": "x"}))] {
+                let tok = sign_token(&hdr, &pl, issuer, alg);
+                let mut c = mk(&format!("control-header-parameter-{}", pname), h, bare(&tok).render(f.issue.fmt), Resolver::always(issuer), false);
+                c.expect = Expect::Accept;
+                out.push(c);
+                let tok_other = sign_token(&hdr, &pl, other_k, alg);
+                out.push(mk(&format!("header-parameter-{}-signed-with-another-key", pname), h, bare(&tok_other).render(f.issue.fmt), Resolver::always(issuer), false));
             }
             let mut c2 = mk("control-kid-resolver-json-with-unsigned-header-member", h, bare(&good).json_form(true, Some(("header", json!({"kid": "k-other"})))), by_kid.clone(), false);
             c2.args.fmt = Fmt::Json;
